@@ -1,12 +1,13 @@
 #!/bin/bash
 # usage: tools/confirm_mutant.sh <worktree> "<demo cargo command>"
+# (the suite runs in a private network namespace: its end-to-end tests bind fixed ports and clash with other worktrees otherwise)
 # Confirms in the scratch worktree: with the patch the existing suite passes and the demo fails; without it the demo passes.
 set -u
 wt="$1"; demo="$2"
 cd "$wt" || exit 2
 export CARGO_NET_OFFLINE=true
 echo "--- with the change: existing suite"
-cargo nextest run --workspace --no-fail-fast --test-threads 8 --offline 2>&1 | grep -E "Summary|FAIL \[" | sed 's/^ *//' | sort -u | head -12
+unshare -n sh -c "ip link set lo up && cargo nextest run --workspace --no-fail-fast --test-threads 8 --offline" 2>&1 | grep -E "Summary|FAIL \[" | sed 's/^ *//' | sort -u | head -12
 echo "--- with the change: demo"
 ( eval "$demo" ) 2>&1 | grep -E "test result|panicked|FAILED|error\[" | head -6
 echo "--- without the change: demo"
